@@ -834,6 +834,10 @@ func (f *Frame) addrComps(addr ssa.Value) ([]string, bool) {
 			path = append([]int{fa.Field}, path...)
 			cur = fa.X
 		}
+		if ia, ok := cur.(*ssa.IndexAddr); ok {
+			// a field of a struct stored in a slice or array element: the element is rewritten as a whole
+			return f.addrComps(ia)
+		}
 		pt, ok := cur.Type().Underlying().(*types.Pointer)
 		if !ok || !isStruct(pt.Elem()) {
 			return nil, true
